@@ -63,17 +63,36 @@ FIT_POOL = {
     'T': ('linear', (500.0, 2400.0)),
     'planet_radius': ('linear', (0.5, 1.6)),
     'planet_mass': ('linear', (0.4, 2.5)),
+    'T_irr': ('linear', (700.0, 2300.0)),
+    'kappa_irr': ('log', (1e-4, 1e-1)),
+    'kappa_v1': ('log', (1e-4, 1e-1)),
+    'alpha': ('linear', (0.05, 0.95)),
+    'clouds_pressure': ('log', (1e1, 1e5)),
+    'flat_mix_ratio': ('log', (1e-13, 1e-7)),
+    'lee_mie_radius': ('linear', (0.004, 0.06)),
+    'lee_mie_mix_ratio': ('log', (1e-13, 1e-8)),
+    'He_H2': ('log', (0.03, 0.4)),
 }
 
 
 def gen_fit(rng, mcfg, nmax=4, allow_kinds=('Uniform', 'LogUniform',
-                                            'Gaussian', 'LogGaussian')):
+                                            'Gaussian', 'LogGaussian'),
+            rich=False):
     """Fitted parameters with priors whose support stays in the valid region."""
     cands = []
     if mcfg['tp']['kind'] == 'isothermal':
         cands.append('T')
     cands += ['planet_radius', 'planet_mass']
     cands += [m['name'] for m in mcfg['molecules']]
+    if rich:
+        if mcfg['tp']['kind'] == 'guillot':
+            cands += ['T_irr', 'kappa_irr', 'kappa_v1', 'alpha']
+        cands += [n for c_, n in (('SimpleClouds', 'clouds_pressure'),
+                                  ('FlatMie', 'flat_mix_ratio'),
+                                  ('LeeMie', 'lee_mie_radius'),
+                                  ('LeeMie', 'lee_mie_mix_ratio'))
+                  if c_ in mcfg['contribs']]
+        cands.append('He_H2')
     k = rng.randint(1, min(nmax, len(cands)))
     names = rng.sample(cands, k)
     fit = []
@@ -82,10 +101,13 @@ def gen_fit(rng, mcfg, nmax=4, allow_kinds=('Uniform', 'LogUniform',
             mode, (lo, hi) = FIT_POOL[n]
         else:
             mode, (lo, hi) = 'log', (1e-8, 1e-3)
-        a = lo + (hi - lo) * rng.uniform(0, 0.4) if mode == 'linear' \
-            else lo * 10 ** rng.uniform(0, 1.5)
-        b = hi - (hi - lo) * rng.uniform(0, 0.4) if mode == 'linear' \
-            else hi / 10 ** rng.uniform(0, 1.5)
+        if mode == 'linear':
+            a = lo + (hi - lo) * rng.uniform(0, 0.4)
+            b = hi - (hi - lo) * rng.uniform(0, 0.4)
+        else:
+            la, lb = math.log10(lo), math.log10(hi)
+            a = 10 ** (la + (lb - la) * rng.uniform(0, 0.3))
+            b = 10 ** (lb - (lb - la) * rng.uniform(0, 0.3))
         kind = rng.choice(allow_kinds)
         if kind == 'Uniform':
             spec = {'kind': kind, 'args': {'bounds': [a, b]}}
@@ -102,6 +124,14 @@ def gen_fit(rng, mcfg, nmax=4, allow_kinds=('Uniform', 'LogUniform',
         fit.append({'name': n, 'mode': rng.choice(['linear', 'log']),
                     'prior': spec, 'set_prior': True})
     return fit
+
+
+CONTRIB_PARAMS = {'clouds_pressure', 'flat_mix_ratio', 'lee_mie_radius',
+                  'lee_mie_mix_ratio'}
+
+
+def fit_needs_contribs(fit):
+    return any(f['name'] in CONTRIB_PARAMS for f in fit)
 
 
 def configure_optimizer(opt, fit, derived=None, model=None):
